@@ -170,6 +170,64 @@ Section Totality.
   Qed.
 End Totality.
 
+(* ---------------------------------------------------------------- latitude: from the code's float m to the real Mercator row *)
+Section LatitudeTie.
+  Variable m_tan m_cos m_log : pfloat -> pfloat.
+  Notation yf := (y_f m_tan m_cos m_log).
+  Notation mm := (merc_m m_tan m_cos m_log).
+
+  (* one certificate per latitude is enough: if the row at zoom 35 is the real-number row, so is the row at every zoom
+     (the float rows are nested by y_f_nested, the real rows by nested_floor).  The premise on the zoom-35 row is what the
+     meta step latcert certifies per sampled latitude with CoqInterval. *)
+  Theorem y_f_all_zooms_from_35 lat (latR : R) : ffin (mm lat) = true -> (Rabs (fval (mm lat)) <= 4)%R ->
+    (Rabs latR <= lat_limit)%R -> yf lat 35 = Some (Y_exact 35 latR) ->
+    forall h, 0 <= h <= 35 -> yf lat h = Some (Y_exact h latR) /\ 0 <= Y_exact h latR < 2 ^ h.
+  Proof.
+    intros Fm Bm Hl Y35 h Hh.
+    pose proof (Y_exact_range 35 latR ltac:(lia) Hl) as R35.
+    destruct (y_f_nested m_tan m_cos m_log lat _ Fm Bm Y35 R35 h Hh) as [E _].
+    assert (N : Y_exact h latR = anc (35 - h) (Y_exact 35 latR)) by (unfold Y_exact; apply nested_floor; lia).
+    rewrite N. split; [exact E|]. rewrite <- N. apply Y_exact_range; [lia | exact Hl].
+  Qed.
+
+  (* where the tolerance band of the certificates comes from: if the code's m/2 is within 2^-45 of the real Mercator fraction,
+     the row is in range, at most one row away from the real-number row, and equal to it unless the real position is within
+     2^(h-45) rows of a row boundary (run-time class y_rounding of the step latcert).  The premise is a statement about Go's libm:
+     it is not proved; the step latcert checks its consequence on the sampled latitudes. *)
+  Definition y_rounding (latR : R) (h : Z) : Prop :=
+    Zfloor (bpow radix2 h * wfrac latR - bpow radix2 (h - 45)) <> Zfloor (bpow radix2 h * wfrac latR + bpow radix2 (h - 45)).
+  Theorem y_f_close lat (latR : R) h : 0 <= h <= 35 -> ffin (mm lat) = true -> (Rabs latR <= lat_limit)%R ->
+    (Rabs (fval (mm lat) / 2 - wfrac latR) <= bpow radix2 (-45))%R ->
+    exists y, yf lat h = Some y /\ 0 <= y < 2 ^ h /\ Y_exact h latR - 1 <= y <= Y_exact h latR + 1 /\
+              (~ y_rounding latR h -> y = Y_exact h latR).
+  Proof.
+    intros Hh Fm Hl Hc. pose proof (wfrac_range latR Hl) as [W0 W1].
+    assert (B45 : (0 < bpow radix2 (-45) < 1 / 10 ^ 13)%R).
+    { split; [apply bpow_gt_0|]. replace (bpow radix2 (-45)) with (/ 35184372088832)%R by (simpl; lra). lra. }
+    apply Rabs_le_inv in Hc. set (w := wfrac latR) in *. set (u := (fval (mm lat) / 2)%R) in *.
+    assert (U : (0 < u < 1)%R) by lra.
+    assert (M : (0 <= fval (mm lat) < 2)%R) by (unfold u in U; lra).
+    exists (Zfloor (bpow radix2 h * u)). split; [apply y_f_inrange; assumption|].
+    assert (Ph : (0 < bpow radix2 h)%R) by apply bpow_gt_0.
+    assert (Eb : bpow radix2 (h - 45) = (bpow radix2 h * bpow radix2 (-45))%R) by (rewrite <- bpow_plus; f_equal).
+    assert (D1 : (bpow radix2 h * bpow radix2 (-45) < 1)%R).
+    { rewrite <- bpow_plus. change 1%R with (bpow radix2 0). apply bpow_lt. lia. }
+    set (t := (bpow radix2 h * w)%R). set (t' := (bpow radix2 h * u)%R).
+    assert (T : (t - bpow radix2 (h - 45) <= t' <= t + bpow radix2 (h - 45))%R) by (rewrite Eb; unfold t, t'; nra).
+    fold (Y_exact h latR). fold w. fold t. unfold Y_exact. fold w. fold t.
+    split; [|split].
+    - split.
+      + apply Zfloor_lub. simpl. unfold t'. nra.
+      + apply lt_IZR. apply Rle_lt_trans with t'; [apply Zfloor_lb|]. rewrite IZR_pow2 by lia. unfold t'. nra.
+    - rewrite Eb in T. split.
+      + replace (Zfloor t - 1) with (Zfloor (t + IZR (-1))) by (rewrite Zfloor_shift; lia). apply Zfloor_le. simpl. lra.
+      + rewrite <- Zfloor_shift. apply Zfloor_le. simpl. lra.
+    - unfold y_rounding. fold w. fold t. intros C. apply Decidable.not_not in C; [|apply Z.eq_decidable].
+      assert (I2 : (t - bpow radix2 (h - 45) <= t <= t + bpow radix2 (h - 45))%R) by (pose proof (bpow_gt_0 radix2 (h - 45)); lra).
+      rewrite (floor_squeeze _ _ _ T C). symmetry. apply (floor_squeeze _ _ _ I2 C).
+  Qed.
+End LatitudeTie.
+
 (* ---------------------------------------------------------------- (4) the real-number side *)
 (* a geographic point (degrees, degrees, metres) in the normalised coordinates of Voxel.inR *)
 Definition norm_pt (lon lat alt : R) : pt := (ufrac lon, wfrac lat, (alt / bpow radix2 25)%R).
